@@ -26,7 +26,7 @@ def confirm_prop(pid):
     wt = f"{WT_PREFIX}{pid}"
     res = []
     for n in ("1", "2", "3"):
-        meta_base = "the pinned commit" if not TAG else "/repo HEAD at the time of seeding (round 2, after the repairs)"
+        meta_base = "the pinned commit" if not TAG else f"/repo HEAD at the time of seeding (round {TAG.strip('r-') or 2}, after the repairs)"
         d = f"{SRC}/{pid}/{n}"
         if not os.path.exists(f"{d}/patch.diff"):
             continue
